@@ -11,7 +11,7 @@ import (
 var words = []string{"alpha", "beta", "gamma", "delta", "foo", "bar", "baz", "qux", "Foo", "BAR", "x", "y1", "été", "日本", "a_b", "co-op"}
 
 var headingTexts = []string{"a", "A", "a-1", "a_1", "a 1", "", "#", "!!!", "é", "日本", "heading", "heading-1", "1", "a-1-1",
-	"*a*", "`a`", "a  b", "a-b", "A B", "id", "heading-2", "[a](/u)", "a\\*", "&amp;", "-", "_", "a-2", "1-1", "Heading", " a ", "a#"}
+	"*a*", "`a`", "a  b", "a-b", "A B", "id", "heading-2", "[a](/u)", "a\\*", "&amp;", "-", "_", "a-2", "1-1", "Heading", " a ", "a#", "release notes", "Release Notes", "getting started fast", "a b c"}
 
 // tricky: strings on which un-escaping, entity resolution or URL escaping is NOT idempotent
 // (doing it twice gives something else than doing it once), so a transformation applied
@@ -445,12 +445,35 @@ func genHeadingDoc(r *Rng) []byte {
 			pool = pool[len(pool)-5:]
 		}
 	}
+	if r.Split("length-sweep").Chance(1, 6) {
+		// slugs of every length from 1 to 40 bytes, each handed out several times (so that the
+		// slug and its -1, -2 ... candidates of every length are probed in the used-id table)
+		rs := r.Split("length-sweep-texts")
+		const al = "abcdefghijklmnopqrstuvwxyzabcdefghijklmnopqrstuvwxyz"
+		pool = nil
+		for i := rs.Range(1, 3); i > 0; i-- {
+			l := rs.Range(1, 40)
+			o := rs.Intn(10)
+			pool = append(pool, al[o:o+l])
+		}
+		if n < 3 {
+			n = rs.Range(3, 6)
+		}
+	}
 	for i := 0; i < n; i++ {
 		t := pick(r, pool)
 		level := r.Range(1, 6)
 		setextOK := strings.TrimSpace(t) != "" && !strings.HasPrefix(strings.TrimSpace(t), "#") && t != "-" && t != "_" && !strings.HasPrefix(t, " ")
 		var h string
 		if setextOK && r.Chance(1, 3) {
+			if j := strings.Index(strings.TrimSpace(t), " "); j > 0 && r.Split("multi-line-setext").Chance(1, 2) && !strings.ContainsAny(t, "[`*") {
+				// the same text over two lines: a multi-line Setext heading
+				tt := strings.TrimSpace(t)
+				t = tt[:j] + "\n" + strings.TrimLeft(tt[j+1:], " ")
+				if strings.HasPrefix(t[j+1:], "#") || strings.HasPrefix(t[j+1:], "-") || strings.HasPrefix(t[j+1:], "=") || strings.HasPrefix(t[j+1:], ">") || t[j+1:] == "" {
+					t = tt
+				}
+			}
 			h = fmt.Sprintf("%s\n%s\n", t, pick(r, []string{"===", "---"}))
 		} else {
 			h = fmt.Sprintf("%s %s%s\n", strings.Repeat("#", level), t, pick(r, []string{"", "", " #", " ##  "}))
